@@ -31,6 +31,7 @@ REGISTRY = {
     "S06": ("checks.extra_checks", "s06"),
     "S07": ("checks.extra_checks", "s07"),
     "S08": ("checks.extra_checks", "s08"),
+    "S09": ("checks.extra_checks", "s09"),
     "C04": ("checks.arith_checks", "c04"),
     "C05": ("checks.arith_checks", "c05"),
     "C12": ("checks.controlb_checks", "c12"),
